@@ -42,6 +42,9 @@ checks = {
  "C13": ("exploration", "enum", E1,
          "Complete enumeration of every data-rate index x direction, every (protocol version, revision, data-rate) query incl. unknown strings, every payload-size cell of every table, every default channel and TX-power index of all 96 configurations; closure and relations decided on the snapshot, constants compared with an independent Regional Parameters table.",
          "Numeric payload cells are judged by the relations the property states, not cell by cell; the SF-monotonicity relation is applied among data-rates of a common direction (the Regional Parameters themselves give the 500 kHz uplink and downlink rates different repeater limits)."),
+ "C15": ("model_checking", "xstate", E2,
+         "Explicit-state BFS per band over AddChannel (4 argument kinds) / Disable / Enable (6 index kinds incl. -1 and n) from the constructor state, depth 4 quick / 6 thorough, dedup on the snapshot of both channel slices; a Go slice model is stepped in lock-step on every transition and all observers (index sets, accessors with invalid indices, lookups, GetCFList for 7 versions) are compared in every distinct state; every frequency/DR/CFList the band produces is pushed through the MAC encoders and decoded back.",
+         "Depth bound (4/6 operations) plus a directed 7-addition history; canonical-state soundness argued in DESIGN.md A.2. Operation sequences of length ~30 named in the quantifier are beyond the bound: the state space closes under Disable/Enable at every explored add-history, so longer sequences revisit explored states unless they add more channels."),
 }
 
 def load_extra():
